@@ -38,3 +38,15 @@ package hlog
 //@   ensures ncalls(WriterProxy.Status) == old(ncalls(WriterProxy.Status)) + 1 && callarg(WriterProxy.Status, old(ncalls(WriterProxy.Status)), 0) == deref(lw)
 //@   ensures ncalls(WriterProxy.BytesWritten) == old(ncalls(WriterProxy.BytesWritten)) + 1 && callarg(WriterProxy.BytesWritten, old(ncalls(WriterProxy.BytesWritten)), 0) == deref(lw)
 //@   ensures ncalls(AccessHandler$1$1$1.f) == old(ncalls(AccessHandler$1$1$1.f)) + 1 && callarg(AccessHandler$1$1$1.f, old(ncalls(AccessHandler$1$1$1.f)), 0) == deref(r) && callarg(AccessHandler$1$1$1.f, old(ncalls(AccessHandler$1$1$1.f)), 1) == callres(WriterProxy.Status, old(ncalls(WriterProxy.Status)), 0) && callarg(AccessHandler$1$1$1.f, old(ncalls(AccessHandler$1$1$1.f)), 2) == callres(WriterProxy.BytesWritten, old(ncalls(WriterProxy.BytesWritten)), 0)
+
+// The host part of a RemoteAddr / Host value is whatever net.SplitHostPort says it is (IPv4, bracketed
+// IPv6 with port, names); a value it rejects -- no port, bare IPv6 -- is the host as it stands.
+//@ track net.SplitHostPort
+//@ func getHost(hostPort) res
+//@   props C18
+//@   arith int
+//@   flag replay hlog_access
+//@   ensures hostPort == "" ==> res == ""
+//@   ensures hostPort != "" ==> ncalls(net.SplitHostPort) == old(ncalls(net.SplitHostPort)) + 1 && same(callarg(net.SplitHostPort, old(ncalls(net.SplitHostPort)), 0), hostPort)
+//@   ensures hostPort != "" && callres(net.SplitHostPort, old(ncalls(net.SplitHostPort)), 2) == nil ==> same(res, callres(net.SplitHostPort, old(ncalls(net.SplitHostPort)), 0))
+//@   ensures hostPort != "" && callres(net.SplitHostPort, old(ncalls(net.SplitHostPort)), 2) != nil ==> same(res, hostPort)
